@@ -43,6 +43,7 @@ def run(ctx):
         'C10.c identity-return short-cuts of Moment/AbstractCircuit resolution are guarded by a change flag',
         'C10.d sweep classes: enumeration, equality, hash and JSON cover the same fields',
         'C01.b the sweep prefix simulated once excludes parameterized operations',
+        'C10.f resolver composition lets the inner resolver\'s bindings win; C10.g flattened symbols always pass the collision check',
     ]
     ctx.not_decided += ['value_of fast paths vs sympy', 'sweep length/index/slice arithmetic',
                         'flatten_expressions', 'numerical equality of anything']
@@ -163,6 +164,61 @@ def run(ctx):
         if jk:
             miss = {f for f in enum_f if f not in jk['all'] and f.lstrip('_') not in jk['all']}
             ctx.ob('C10.d', key + ':json', not miss, f'JSON omits enumerated field(s) {sorted(miss)}' if miss else '', ci.mod.rel, line)
+
+    # ------------------------------------------------------------------ C10.f
+    ctx.rule('C10.f', 'resolver composition: in ParamResolver._resolve_parameters_ the identity entries for the outer resolver\'s symbols are '
+             'laid down before this resolver\'s own bindings are written over them (inner bindings win), and the result is then resolved by '
+             'the outer resolver', floor=1, style='MPT')
+    pr = repo.cls('cirq.study.resolver.ParamResolver')
+    fn = repo.method(pr.qual, '_resolve_parameters_')
+    writes = []   # (line, kind) kind in {'identity', 'self', 'outer'}
+    for n in ast.walk(fn):
+        comp = None
+        if isinstance(n, (ast.Assign, ast.AnnAssign)) and isinstance(getattr(n, 'value', None), ast.DictComp):
+            comp = n.value
+        elif isinstance(n, ast.Call) and call_name(n) == 'update' and n.args and isinstance(n.args[0], ast.DictComp):
+            comp = n.args[0]
+        if comp is None:
+            continue
+        it = ast.unparse(comp.generators[0].iter)
+        val = ast.unparse(comp.value)
+        key = ast.unparse(comp.key)
+        if val == key and it == 'resolver':
+            writes.append((n.lineno, 'identity'))
+        elif 'self.value_of' in val:
+            writes.append((n.lineno, 'self'))
+        elif 'resolver.value_of' in val:
+            writes.append((n.lineno, 'outer'))
+    order = [k for _, k in sorted(writes)]
+    ok = order[:3] == ['identity', 'self', 'outer']
+    ctx.ob('C10.f', f'{pr.qual}._resolve_parameters_:write-order', ok,
+           '' if ok else f'bindings are combined in the order {order}: the outer resolver\'s identity entries overwrite this resolver\'s bindings for shared '
+           'symbols, so resolve(resolve(x, r1), r2) != resolve(x, compose(r1, r2))', pr.mod.rel, fn.lineno)
+
+    # ------------------------------------------------------------------ C10.g
+    ctx.rule('C10.g', 'flattening: every new entry written to the flattener\'s symbol table maps the expression to a symbol obtained from '
+             '_next_symbol (the collision check against already taken names)', floor=1, style='WMW')
+    fl = repo.cls('cirq.study.flatten_expressions._ParamFlattener')
+    for mn, mfn in sorted(fl.methods.items()):
+        if mn == '__init__':
+            continue
+        from ..flow import reaching_defs
+        stores = [n for n in ast.walk(mfn) if isinstance(n, ast.Assign) and isinstance(n.targets[0], ast.Subscript)
+                  and '_param_dict' in ast.unparse(n.targets[0].value)]
+        if not stores:
+            continue
+        names = {n.value.id for n in stores if isinstance(n.value, ast.Name)}
+        rd = reaching_defs(mfn, names) if names else {}
+        for st in stores:
+            v = st.value
+            if isinstance(v, ast.Name):
+                defs = rd.get(id(v), set())
+                ok = bool(defs) and all(isinstance(d, ast.AST) and '_next_symbol' in ast.unparse(d) for d in defs)
+            else:
+                ok = '_next_symbol' in ast.unparse(v)
+            ctx.ob('C10.g', f'{fl.qual}.{mn}:table-store', ok,
+                   '' if ok else f'`{ast.unparse(st)}` enters a symbol that did not come from _next_symbol: it can coincide with the name generated for another expression',
+                   fl.mod.rel, st.lineno)
 
     # ------------------------------------------------------------------ C01.b
     shared.sweep_prefix_rule(ctx, 'C01.b')
